@@ -142,6 +142,12 @@ func main() {
 	if s := os.Getenv("VERIF_SEED"); s != "" {
 		seed, _ = strconv.Atoi(s)
 	}
+	for _, kv := range strings.Split(os.Getenv("VERIF_PARAMS"), ",") {
+		if parts := strings.SplitN(kv, "=", 2); len(parts) == 2 {
+			v, _ := strconv.Atoi(parts[1])
+			extraParams[parts[0]] = v
+		}
+	}
 	spec, ok := props[id]
 	if !ok {
 		fmt.Fprintf(os.Stderr, "unknown property %s\n", id)
@@ -301,7 +307,19 @@ func run(spec *PropSpec, st *interp.Stage, tier string, seed int, only string, w
 	return exit
 }
 
+var extraParams = map[string]int{}
+
 func runJob(l *interp.Loaded, j JobSpec, verbose bool) (res *JobResult) {
+	if len(extraParams) > 0 {
+		p := map[string]int{}
+		for k, v := range j.Params {
+			p[k] = v
+		}
+		for k, v := range extraParams {
+			p[k] = v
+		}
+		j.Params = p
+	}
 	t0 := time.Now()
 	res = &JobResult{Spec: j}
 	defer func() {
@@ -367,9 +385,9 @@ func replay(st *interp.Stage, j JobSpec, l *interp.Loaded, dir string) (bool, st
 	}
 	h := st.Hosts[j.Group]
 	pkgName := l.Pkg.Pkg.Name()
-	mode := "Run"
+	call := "vrt.Run(" + j.Harness + ")"
 	if j.Mode == "bmc" {
-		mode = "RunBMC"
+		call = "vrt.BMCTest(t, " + j.Harness + ")"
 	}
 	test := fmt.Sprintf(`package %s
 
@@ -380,7 +398,7 @@ import (
 )
 
 func TestVerifReplay(t *testing.T) {
-	fails, applicable, p := vrt.%s(%s)
+	fails, applicable, p := %s
 	t.Logf("replay: %%s", vrt.Describe(fails, applicable, p))
 	if !applicable {
 		t.Log("NOTAPPLICABLE")
@@ -390,7 +408,7 @@ func TestVerifReplay(t *testing.T) {
 		t.Fatalf("REPRODUCED %%v %%v", fails, p)
 	}
 }
-`, pkgName, mode, j.Harness)
+`, pkgName, call)
 	testPath := filepath.Join(dir, "zz_verif_replay_test.go")
 	os.WriteFile(testPath, []byte(test), 0o644)
 	repl := map[string]string{filepath.Join(h.Dir, "zz_verif_replay_test.go"): testPath}
@@ -409,7 +427,9 @@ func TestVerifReplay(t *testing.T) {
 	s := string(out)
 	script := fmt.Sprintf("#!/bin/sh\n# replay of a counterexample found by vcheck; staged internal packages need `vcheck --replay`.\ncd %s && VRT_CEX=%s GOWORK=<go.work generated by vcheck> go test -vet=off -count=1 -run '^TestVerifReplay$' -overlay %s -v .\n", h.Dir, filepath.Join(dir, "cex.json"), ovPath)
 	os.WriteFile(filepath.Join(dir, "replay.sh"), []byte(script), 0o755)
-	return strings.Contains(s, "REPRODUCED"), s
+	// a panic in a library goroutine takes the test binary down: that is a reproduction too
+	crashed := strings.Contains(s, "\npanic: ") || strings.HasPrefix(s, "panic: ")
+	return strings.Contains(s, "REPRODUCED") || crashed, s
 }
 
 // nativeSmoke compiles the harnesses with the real toolchain and runs each
